@@ -15,43 +15,56 @@ set_option linter.unusedSectionVars false
 namespace Unyt.C03
 open Unyt
 
-variable {K : Type} [Lean.Grind.Field K] [BEq K] [LawfulBEq K]
+variable {K : Type} [Lean.Grind.Field K] [BEq K] [LawfulBEq K] [RPow K]
 
 /-- calls on temporaries never touch the long-lived object, and what they return is the
     one-shot conversion — whatever the state -/
-theorem temp_step_stateless (pre : Prefixes K) (t : Lut K) (st : K × UnitV K) (x : K) (u tg : UnitV K) :
-    stepHist pre t st (.temp x u tg) = (st, toValue pre t u x tg)
-    ∧ stepHist pre t st (.tempConvert x u tg) = (st, toValue pre t u x tg) := by
+theorem temp_step_stateless (pre : Prefixes K) (t : Lut K) (T : EmTable K) (st : K × UnitV K) (x : K) (u tg : UnitV K) :
+    stepHist pre t T st (.temp x u tg) = (st, toValue pre t u x tg)
+    ∧ stepHist pre t T st (.tempConvert x u tg) = (st, toValue pre t u x tg) := by
   refine ⟨rfl, ?_⟩
   simp only [stepHist, toValue, (routes_agree pre t u tg x).1]
 
 /-- history independence: after ANY history `ops` from ANY start state, a conversion of a
     temporary returns exactly what it returns as the first call of a fresh process, on both the
     copying and the in-place route -/
-theorem hist_temp_independent (pre : Prefixes K) (t : Lut K) (st : K × UnitV K)
+theorem hist_temp_independent (pre : Prefixes K) (t : Lut K) (T : EmTable K) (st : K × UnitV K)
     (ops : List (HOp K)) (x : K) (u tg : UnitV K) :
-    (runHist pre t st (ops ++ [.temp x u tg])).2 = (runHist pre t st ops).2 ++ [toValue pre t u x tg]
-    ∧ (runHist pre t st (ops ++ [.tempConvert x u tg])).2 = (runHist pre t st ops).2 ++ [toValue pre t u x tg]
-    ∧ (runHist pre t st (ops ++ [.temp x u tg])).1 = (runHist pre t st ops).1 := by
-  simp only [runHist_append, runHist, (temp_step_stateless pre t _ x u tg).1,
-    (temp_step_stateless pre t _ x u tg).2, and_self]
+    (runHist pre t T st (ops ++ [.temp x u tg])).2 = (runHist pre t T st ops).2 ++ [toValue pre t u x tg]
+    ∧ (runHist pre t T st (ops ++ [.tempConvert x u tg])).2 = (runHist pre t T st ops).2 ++ [toValue pre t u x tg]
+    ∧ (runHist pre t T st (ops ++ [.temp x u tg])).1 = (runHist pre t T st ops).1 := by
+  simp only [runHist_append, runHist, (temp_step_stateless pre t T _ x u tg).1,
+    (temp_step_stateless pre t T _ x u tg).2, and_self]
+
+/-- the same for the base-system routes on temporaries (`in_base`/`in_cgs`/`in_mks` and their
+    in-place twins, EM branch included): after ANY history the call returns what `inBase` /
+    `convertToBase` return for (numbers, unit, system) alone, and the object is left untouched -/
+theorem hist_base_temp_independent (pre : Prefixes K) (t : Lut K) (T : EmTable K) (st : K × UnitV K)
+    (ops : List (HOp K)) (S : USys K) (x : K) (u : UnitV K) :
+    (runHist pre t T st (ops ++ [.tempBase S x u])).2
+        = (runHist pre t T st ops).2 ++ [(inBase pre t T S u x).map (·.1)]
+    ∧ (runHist pre t T st (ops ++ [.tempConvertBase S x u])).2
+        = (runHist pre t T st ops).2 ++ [(convertToBase pre t T S (x, u)).map (·.1)]
+    ∧ (runHist pre t T st (ops ++ [.tempBase S x u])).1 = (runHist pre t T st ops).1
+    ∧ (runHist pre t T st (ops ++ [.tempConvertBase S x u])).1 = (runHist pre t T st ops).1 := by
+  simp only [runHist_append, runHist, stepHist, and_self]
 
 /-- a copy-route call on the object returns the one-shot conversion of its current state and
     leaves it untouched, whatever happened before -/
-theorem hist_peek_current (pre : Prefixes K) (t : Lut K) (st : K × UnitV K)
+theorem hist_peek_current (pre : Prefixes K) (t : Lut K) (T : EmTable K) (st : K × UnitV K)
     (ops : List (HOp K)) (tg : UnitV K) :
-    runHist pre t st (ops ++ [.peek tg])
-      = ((runHist pre t st ops).1,
-         (runHist pre t st ops).2 ++ [toValue pre t (runHist pre t st ops).1.2 (runHist pre t st ops).1.1 tg]) := by
+    runHist pre t T st (ops ++ [.peek tg])
+      = ((runHist pre t T st ops).1,
+         (runHist pre t T st ops).2 ++ [toValue pre t (runHist pre t T st ops).1.2 (runHist pre t T st ops).1.1 tg]) := by
   simp only [runHist_append, runHist, stepHist]
 
 /-- invariant of every history whose in-place targets are commensurable with the object and
     have a non-zero scale: the object's dimension and the SI magnitude it denotes never change
     (induction over the history) -/
-theorem hist_base_invariant (pre : Prefixes K) (t : Lut K) (ops : List (HOp K)) (st : K × UnitV K)
+theorem hist_base_invariant (pre : Prefixes K) (t : Lut K) (T : EmTable K) (ops : List (HOp K)) (st : K × UnitV K)
     (h : ∀ tg ∈ convertTargets ops, tg.dim = st.2.dim ∧ tg.scale ≠ 0) :
-    (runHist pre t st ops).1.2.dim = st.2.dim
-    ∧ siMagnitude pre t (runHist pre t st ops).1 = siMagnitude pre t st := by
+    (runHist pre t T st ops).1.2.dim = st.2.dim
+    ∧ siMagnitude pre t (runHist pre t T st ops).1 = siMagnitude pre t st := by
   induction ops generalizing st with
   | nil => exact ⟨rfl, rfl⟩
   | cons op ops ih =>
@@ -67,15 +80,18 @@ theorem hist_base_invariant (pre : Prefixes K) (t : Lut K) (ops : List (HOp K)) 
     | peek tg => simpa [runHist, stepHist, convertTargets] using ih st (by simpa [convertTargets] using h)
     | temp x u tg => simpa [runHist, stepHist, convertTargets] using ih st (by simpa [convertTargets] using h)
     | tempConvert x u tg => simpa [runHist, stepHist, convertTargets] using ih st (by simpa [convertTargets] using h)
+    | peekBase S => simpa [runHist, stepHist, convertTargets] using ih st (by simpa [convertTargets] using h)
+    | tempBase S x u => simpa [runHist, stepHist, convertTargets] using ih st (by simpa [convertTargets] using h)
+    | tempConvertBase S x u => simpa [runHist, stepHist, convertTargets] using ih st (by simpa [convertTargets] using h)
 
 /-- composition over whole histories: after any such history, converting the object to `tg`
     gives the numbers the ORIGINAL object gives when converted to `tg` in one step -/
-theorem hist_collapse (pre : Prefixes K) (t : Lut K) (ops : List (HOp K)) (st : K × UnitV K) (tg : UnitV K)
+theorem hist_collapse (pre : Prefixes K) (t : Lut K) (T : EmTable K) (ops : List (HOp K)) (st : K × UnitV K) (tg : UnitV K)
     (h : ∀ u ∈ convertTargets ops, u.dim = st.2.dim ∧ u.scale ≠ 0)
     (hd : tg.dim = st.2.dim) (hs : tg.scale ≠ 0) :
-    toValue pre t (runHist pre t st ops).1.2 (runHist pre t st ops).1.1 tg = toValue pre t st.2 st.1 tg := by
-  obtain ⟨hdim, hbase⟩ := hist_base_invariant pre t ops st h
-  generalize runHist pre t st ops = r at hdim hbase
+    toValue pre t (runHist pre t T st ops).1.2 (runHist pre t T st ops).1.1 tg = toValue pre t st.2 st.1 tg := by
+  obtain ⟨hdim, hbase⟩ := hist_base_invariant pre t T ops st h
+  generalize runHist pre t T st ops = r at hdim hbase
   obtain ⟨st', _⟩ := r
   obtain ⟨v1, hv1, hb1⟩ := convertToUnits_ok pre t st' tg (by rw [hd]; exact hdim) hs
   obtain ⟨v2, hv2, hb2⟩ := convertToUnits_ok pre t st tg hd.symm hs
@@ -87,12 +103,14 @@ theorem hist_collapse (pre : Prefixes K) (t : Lut K) (ops : List (HOp K)) (st : 
   congr 1
   grind
 
+@[instance_reducible] private def ratPowNone : RPow Rat := ⟨fun x _ => x⟩
+attribute [local instance] ratPowNone in
 /-- non-vacuity over ℚ: 25 °C → K → °F in place, then a Kelvin temporary read in °F -/
 example :
     let degC : UnitV Rat := ⟨⟨1, [("degC", 1)]⟩, 1, -27315/100, Dim.dTemperature, true⟩
     let kel : UnitV Rat := ⟨⟨1, [("K", 1)]⟩, 1, 0, Dim.dTemperature, true⟩
     let degF : UnitV Rat := ⟨⟨1, [("degF", 1)]⟩, 5/9, -45967/100, Dim.dTemperature, true⟩
-    (runHist [] [] ((25 : Rat), degC) [.convert kel, .convert degF, .temp (29315/100) kel degF]).2.map Except.toOption
+    (runHist [] [] [] ((25 : Rat), degC) [.convert kel, .convert degF, .temp (29315/100) kel degF]).2.map Except.toOption
       = [some (29815/100), some 77, some 68] := by decide +kernel
 
 end Unyt.C03
